@@ -267,6 +267,95 @@ func heavyParent(r *vh.Run, rng *vh.RNG, name string, mode int) {
 	w.Finish(ok, "heavy-parent", fmt.Sprintf("heavy-parent-mode:%d", mode))
 }
 
+// zombie: a transaction of a reverted tip that the node remembers (lastReverted) but that was not
+// acceptable right after the reorg must not displace a transaction accepted later.  X1 confirms p
+// and p2, X2 (the tip) confirms w spending both their outputs; a heavier branch Y replaces them
+// (w is remembered, invalid: its inputs do not exist on Y); p is confirmed on Y; t (v2) spends p's
+// output and is accepted; p2 is confirmed on Y.  t's inputs are untouched by that block.
+func zombie(r *vh.Run, rng *vh.RNG, name string, queryBetween bool) {
+	w := poolrig.NewWorld(r, rng, name, chainx.PoolNet(rng, 1, 1000))
+	g := &poolrig.Gen{W: w, Rng: rng}
+	g.Track = poolrig.NewTracker(w)
+	tip := 0
+	for i := 0; i < 3; i++ {
+		tip = w.GrowRandom(tip, 0)
+	}
+	w.Refresh()
+	cs := w.Node.CM.TipState()
+	free := w.FreeCoins()
+	if len(free) < 2 {
+		w.Finish(false, "zombie-skipped")
+		return
+	}
+	p := w.SpendV1(cs, free[0:1], 1, poolrig.Fee(11), 0)
+	p2 := w.SpendV1(cs, free[1:2], 1, poolrig.Fee(12), 0)
+	zw := w.SpendV1(cs, []poolrig.Coin{poolrig.CoinV1(p, 0), poolrig.CoinV1(p2, 0)}, 1, poolrig.Fee(13), 0)
+	fail := func(what string, err error) {
+		w.C.Oracle("generator-block-invalid", "%s: %v", what, err)
+		w.Finish(false, "zombie-skipped")
+	}
+	x1, err := w.Tree.MineWith(rng, tip, []types.Transaction{p, p2}, nil, 1)
+	if err != nil {
+		fail("X1", err)
+		return
+	}
+	w.Submit(x1)
+	x2, err := w.Tree.MineWith(rng, x1, []types.Transaction{zw}, nil, 1)
+	if err != nil {
+		fail("X2", err)
+		return
+	}
+	w.Submit(x2)
+	w.Refresh()
+	// the heavier branch
+	y := tip
+	for i := 0; i < 3; i++ {
+		y = w.GrowRandom(y, 0)
+	}
+	if w.TipID() != y {
+		w.Finish(false, "zombie-no-reorg")
+		return
+	}
+	w.Refresh()
+	g.Track.Check()
+	y4, err := w.Tree.MineWith(rng, y, []types.Transaction{p}, nil, 1)
+	if err != nil {
+		fail("Y4", err)
+		return
+	}
+	w.Submit(y4)
+	w.Refresh()
+	// t spends p's output, now a confirmed element
+	var coin *poolrig.Coin
+	for _, c := range w.CoinsOf(w.Led, w.Node.CM.Tip().Height+1) {
+		if c.ID == p.SiacoinOutputID(0) {
+			cc := c
+			coin = &cc
+		}
+	}
+	if coin == nil {
+		w.Finish(false, "zombie-skipped")
+		return
+	}
+	t := w.SpendV2(w.Node.CM.TipState(), []poolrig.Coin{*coin}, 1, poolrig.Fee(14), 0)
+	if g.AddV2(w.TipID(), []types.V2Transaction{t}, nil, "fresh", -1, false) != "ok" {
+		w.Finish(false, "zombie-not-accepted")
+		return
+	}
+	if queryBetween {
+		g.Lookups(true)
+	}
+	y5, err := w.Tree.MineWith(rng, y4, []types.Transaction{p2}, nil, 1)
+	if err != nil {
+		fail("Y5", err)
+		return
+	}
+	w.Submit(y5)
+	w.Refresh()
+	g.Track.Check()
+	w.Finish(true, "zombie")
+}
+
 func Run(r *vh.Run) {
 	r.Rule = "four case families. history: one real chain.Manager on a growing fork tree driven by 50-90 steps mixing the C14 submission classes (fresh, chained/ephemeral, known, conflicting at k, invalid at k, stale/unknown basis) with blocks confirming pool prefixes, fork branches that overtake the tip (reorg depth 1-3), parent/child sets followed by an unrelated block, and blocks assembled by coreutils.MineBlock; non-trivial = at least one reorg and one accepted set. heavy-parent: a pool whose first non-fitting transaction (1.1-1.4M weight behind another one) is the parent of later small ones, v2 / v1 / mixed, then MineBlock. exact-weight: a pool prefix weighing MaxBlockWeight-d for d in {0,1,5,11,12,13,500}, v1 or v2, with or without v2 block data, then MineBlock twice. full-pool: 14 transactions of 1.5-1.9M weight with distinct fee rates (eviction at 10 x MaxBlockWeight), then MineBlock; distinct = distinct op lists"
 	rng := vh.NewRNG(r.Seed).Fork()
@@ -278,6 +367,9 @@ func Run(r *vh.Run) {
 	for i, d := range ds {
 		exactWeight(r, rng.Fork(), fmt.Sprintf("w%d-v2", i), d, true, rng.Intn(3))
 		exactWeight(r, rng.Fork(), fmt.Sprintf("w%d-v1", i), d, false, rng.Intn(3))
+	}
+	for i := 0; i < r.Pick(2, 6); i++ {
+		zombie(r, rng.Fork(), fmt.Sprintf("z%d", i), i%2 == 0)
 	}
 	for i := 0; i < r.Pick(3, 12); i++ {
 		heavyParent(r, rng.Fork(), fmt.Sprintf("p%d", i), i%3)
